@@ -33,6 +33,7 @@ RULE = ("seeded generator over top-level kind (8 model classes) x 1-4 input vari
         "in other orders) x batch 1-64 in 1 or 2 batch axes x float32/float64.  A case is non-trivial when at least "
         "one deciding comparison was made on >= 2 variables or >= 2 rows; distinct = (top kind, #variables, #batch "
         "axes, dtype, batch class, tree depth).")
+RULE += '; a fifth of the cases evaluate one batch of 1000-65537 rows with or without autograd and re-evaluate picked rows and the tail as their own batch'
 REQUIRED_REACH = ["Model._fix_points_order", "Parallel.forward", "Sequential.forward", "Points.joined",
                   "FCN.forward", "Harmonic_FCN.forward", "Polynomial_FCN.forward", "QRES.forward", "Quadratic.forward",
                   "DeepRitzNet.forward", "NormalizationLayer.forward", "NormalizationLayer.__init__",
